@@ -24,7 +24,7 @@ MIN_EVENTS = {"fresh-copy comparisons": 500,
               "no-op refits observed": 40,
               "operations that raised": 60}
 TIMEOUT = {"quick": 900, "thorough": 3500}
-N_HIST = {"quick": 40, "thorough": 650}     # per shard
+N_HIST = {"quick": 26, "thorough": 650}     # per shard
 RULE = ("case = one history of 3..14 operations over {apply_preprocessing, "
         "fit_model(**subset), fit_model(), fit_properties[k]=v, "
         "rate_quality, compute_emodulus_mindelta, edit-returned-parameters-"
